@@ -156,10 +156,12 @@ TEXT["C07"] = dict(
     category="exploration",
     technique="deterministic thread simulation: real threads parked in C calls and stepped by a controller; instruction-level instrumentation (sys.monitoring / settrace) of stackscope's own frame-reading code turns every legal GIL-release boundary into a tape-decided hand-over; crash = violation",
     text="Blocked legs (3.9-3.12): after every step of 1-3 parked threads extract(thread) must equal the thread's f_back chain with exact contexts; unstarted/finished threads give no frames. "
-    "Racing legs (3.12, 3.11): while extract(thread), extract_since(frame of another thread) or lowlevel.inspect_frame run, the tape lets the inspected thread advance 1-4 yield points at any after-CALL / backward-jump / RESUME boundary "
+    "Racing legs (3.12, 3.11, 3.10, 3.9): while extract(thread), extract_since(frame of another thread) or lowlevel.inspect_frame run, the tape lets the inspected thread advance 1-4 yield points at any after-CALL / backward-jump / RESUME boundary "
     "of inspect_frame, _parse_exception_table, unwrap_thread, unwrap_stackslice/try_from and the context analysis (leave a with, return, raise out of the frame, call deeper, exit the thread). The worker must not die on a signal, extract must not raise, "
-    "reported frames must belong to the inspected thread, and an accepted inspect_frame snapshot must name exactly the managers entered at one of the positions occupied during the call.",
-    note="Trusted: assumption A-GIL (DESIGN.md 2.3); switches inside a blocking C call are modelled as switches right after the call; targets only stop at generated yield points; no uncontrolled switch-interval stress; 3.9/3.10 have no racing leg.",
+    "reported frames must belong to the inspected thread, and an accepted inspect_frame snapshot must name exactly the managers entered at one of the positions occupied during the call. "
+    "On 3.9/3.10 (no stack top recorded for a running frame) every address that inspect_frame turns into an object reference is judged, when it happens, against an exact ownership log of the inspected frame's value stack; "
+    "a dereference of an address the frame no longer owns is a violation even if the process survives it.",
+    note="Trusted: assumption A-GIL (DESIGN.md 2.3); switches inside a blocking C call are modelled as switches right after the call; targets only stop at generated yield points; no uncontrolled switch-interval stress; on 3.9/3.10 the boundaries used are a sound subset of the interpreter's real switch points; the static stack-depth computation (sim/world/stackdepth.py) is trusted for the ownership oracle.",
     design_ref="5 (C07), 2.3",
 )
 
